@@ -770,6 +770,19 @@ func (ix *idxProver) assertOK(ta *ssa.TypeAssert) (bool, string) {
 			continue
 		}
 		cond, neg := stripNot(ifi.Cond)
+		// the test written out: `_, is := x.(T)` of the same value and type, branched on
+		if ex, ok := cond.(*ssa.Extract); ok && ex.Index == 1 {
+			if t2, ok := ex.Tuple.(*ssa.TypeAssert); ok && t2.CommaOk && canon(t2.X) == canon(ta.X) && types.Identical(t2.AssertedType, ta.AssertedType) {
+				isTEdge := 0
+				if neg {
+					isTEdge = 1
+				}
+				if guarded(ta.Block(), []Edge{{b, isTEdge}}) {
+					return true, "past the ok edge of a comma-ok assertion of the same value to the same type"
+				}
+			}
+			continue
+		}
 		cl, ok := cond.(*ssa.Call)
 		if !ok || len(cl.Call.Args) != 1 || canon(cl.Call.Args[0]) != canon(ta.X) {
 			continue
